@@ -20,8 +20,10 @@ import (
 	"istio.io/istio/pilot/pkg/xds/endpoints"
 	"istio.io/istio/pkg/config"
 	"istio.io/istio/pkg/config/mesh"
+	"istio.io/istio/pkg/config/schema/kind"
 	"istio.io/istio/pkg/kube/krt"
 	"istio.io/istio/pkg/test"
+	"istio.io/istio/pkg/util/sets"
 )
 
 // resT is one generated xDS resource as a proxy would receive it: name and serialized Any.
@@ -184,6 +186,28 @@ func observe(c *caseT, n int, cb comboT, mask int) (o *observation, err error) {
 			opts.Services, opts.Instances = c.Registry()
 		}
 		cg := core.NewConfigGenTest(t, opts)
+		if len(c.Churn) > 0 {
+			churn := map[string]bool{}
+			for _, id := range c.Churn {
+				churn[id] = true
+			}
+			old := cg.PushContext()
+			updated := sets.New[model.ConfigKey]()
+			for _, o := range cfgs {
+				if !churn[objID(o)] {
+					continue
+				}
+				if err := cg.Store().Delete(o.GroupVersionKind, o.Name, o.Namespace, nil); err != nil {
+					t.Fatalf("delete %s: %v", objID(o), err)
+				}
+				updated.Insert(model.ConfigKey{Kind: kind.FromString(o.GroupVersionKind.Kind), Name: o.Name, Namespace: o.Namespace})
+			}
+			if len(updated) > 0 {
+				pc := model.NewPushContext()
+				pc.InitContext(cg.Env(), old, &model.PushRequest{ConfigsUpdated: updated})
+				cg.Env().SetPushContext(pc)
+			}
+		}
 		o = &observation{}
 		for _, ps := range proxies {
 			o.Sections = append(o.Sections, generate(t, cg, ps, "")...)
